@@ -74,7 +74,9 @@ class TxFetcher:
                 computed = tx.id()
             else:
                 computed = hash256(raw)[::-1].hex()
-            if computed != tx_id:
+            # the object we hand back must itself hash to the requested id
+            # (trailing bytes or non-minimal pushes make it differ from the raw hash)
+            if computed != tx_id or tx.id() != tx_id:
                 raise RuntimeError(f"server lied: {computed} vs {tx_id}")
             cls.cache[tx_id] = tx
         cls.cache[tx_id].network = network
